@@ -66,9 +66,12 @@ def _identity(P, R, cp):
     uuid = any("uuid" in x[1].lower() or "rand" in x[1].lower() for x in calls)
     # disambiguation loop: a definition of the id inside a loop whose continuation tests membership of the id among self.checkpoints
     loop_unique = False
+    id_ops = [dict(zip(s_[4][4], s_[4][3])).get("id") for (_b, _j, s_) in aggs]
+    id_call_bbs = set(x[3] for o in id_ops if o is not None for x in walk(cp.sym_operand(o)) if x[0] == "call")
     for lp in cp.loops():
         defs_in = [d for d in cp.defs().get(l, []) if d[0] in lp["body"]]
-        if not defs_in:
+        # the id (under whatever local name, possibly inside an inlined helper) is recomputed inside this loop
+        if not defs_in and not (id_call_bbs & set(lp["body"])):
             continue
         for b in lp["body"]:
             if cp.term(b)[2] == "switch" and A.bool_edges(cp, b) and any(t not in lp["body"] for (t, _) in cp.succ(b)):
@@ -140,6 +143,9 @@ def _snapshot(P, R, cp):
     n_filters = sum(1 for c in calls if c.endswith("::filter"))
     if src_ok and filt and mapv and not trunc and n_filters == 1:
         R.hold("b", "snapshot = {key -> entry.value.clone() | entry in state, !entry.is_expired()}", fn=cp)
+    elif not src_ok and not filt and not mapv and n_filters == 0:
+        # nothing of the iterator form was recognised (the snapshot is built by a loop or a helper): no verdict
+        R.undecide("b", "snapshot-contents", "the snapshot is not built by the state.iter().filter(!expired).map(value) chain this rule reads", cp)
     else:
         R.violate("b", "snapshot-contents", "the snapshot is not exactly the unexpired entries of the whole state map (source=%s, !is_expired filter=%s, value map=%s, truncating adapters=%s, filters=%d)" % (src_ok, filt, mapv, trunc, n_filters), cp)
     # what is serialised is the snapshot
@@ -191,7 +197,26 @@ def _ordering(P, R, cp):
     missing = [k for k in need if k not in steps]
     R.count("fallible_steps", len([k for k in ("create_dir", "serialise", "create_file", "write") if k in steps]))
     if missing:
-        R.violate("c", "steps-missing:%s" % ",".join(missing), "the file backend's checkpoint lacks the steps %s" % missing, cp)
+        # is the step present in the function at all (outside the File arm, after the arms were merged)? then the ordering is
+        # not something this rule can read off the arm: no verdict. Absent altogether: a violation.
+        anywhere = set()
+        for c in cp.calls():
+            if c.bb in cp.normal_blocks():
+                n2 = c.name
+                if n2 == "std::vec::Vec::push" and "checkpoints" in fmt_sym(cp.sym_operand(c.args[0]), maxdepth=8):
+                    anywhere.add("push_meta")
+                if n2.endswith("fs::create_dir_all"):
+                    anywhere.add("create_dir")
+                if "serde_json" in n2 and "to_string" in n2:
+                    anywhere.add("serialise")
+                if n2.endswith("File::create"):
+                    anywhere.add("create_file")
+                if n2.endswith("write_all") or c.dname.endswith("Write::write_all"):
+                    anywhere.add("write")
+        if all(m in anywhere for m in missing):
+            R.undecide("c", "steps-outside-arm:%s" % ",".join(missing), "the steps %s of the file backend's checkpoint are not inside the File arm (arms merged?): ordering not decided" % missing, cp)
+        else:
+            R.violate("c", "steps-missing:%s" % ",".join(missing), "the file backend's checkpoint lacks the steps %s" % missing, cp)
         return
     order = ["create_dir", "create_file", "write", "push_meta"]
     ok = all(cp.dominates(steps[a].bb, steps[b].bb) for a, b in zip(order, order[1:])) and cp.dominates(steps["serialise"].bb, steps["write"].bb)
@@ -253,7 +278,8 @@ def _restore(P, R):
     if not muts:
         R.violate("d", "restore-noop", "restore does not load the snapshot into the state map", rs)
         return
-    first = min(muts, key=lambda c: c.line)
+    doms = [m for m in muts if all(rs.dominates(m.bb, o.bb) for o in muts)]
+    first = doms[0] if doms else min(muts, key=lambda c: c.line)     # (source lines are meaningless across spliced helpers)
     after = set()
     for m in muts:
         after |= rs.reach(m.bb)
@@ -266,6 +292,8 @@ def _restore(P, R):
     steps = [c for c in rs.calls() if c.bb in rs.normal_blocks() and in_arm(c.bb) and (c.name.endswith(("Path::exists", "File::open")) or c.dname.endswith("Read::read_to_string") or ("serde_json" in c.name and "from_str" in c.name))]
     if len(steps) >= 4 and all(rs.dominates(s.bb, first.bb) for s in steps):
         R.hold("d", "exists, open, read_to_string and from_str all dominate the first mutation", fn=rs)
+    elif len(steps) < 4:
+        R.undecide("d", "restore-steps", "only %d of exists/open/read/deserialise found inside the File arm (moved into a helper outside the arm?): ordering not decided" % len(steps), rs)
     else:
         R.violate("d", "restore-steps", "restore does not perform exists/open/read/deserialise before touching the state (%d of 4 found dominating)" % len([s for s in steps if rs.dominates(s.bb, first.bb)]), rs)
     clears = [c for c in muts if c.name.endswith("HashMap::clear")]
@@ -288,7 +316,10 @@ def _restore(P, R):
             R.violate("d", "restore-ok-without-clear", "restore can return Ok without clearing the state map (line %d): whatever was put after the checkpoint survives the restore" % rs.stmts(skipped[0])[0][0] if rs.stmts(skipped[0]) else "restore can return Ok without clearing the state map", rs)
         else:
             R.hold("d", "every Ok return of the File arm passes state.clear()", fn=rs)
-    if clears and okl and all(rs.dominates(clears[0].bb, c.bb) for c in ins):
+    ext = [c for c in muts if c.name.endswith("HashMap::extend")]
+    if clears and ext and not ins and all(rs.dominates(clears[0].bb, c.bb) for c in ext) and not any(A.truncating_adapters(rs.sym_operand(c.args[1])) for c in ext if len(c.args) > 1):
+        R.hold("d", "restore clears the map, then extends it with every snapshot entry", fn=rs)
+    elif clears and okl and all(rs.dominates(clears[0].bb, c.bb) for c in ins):
         R.hold("d", "restore clears the map, then inserts every snapshot entry (no early exit)", fn=rs)
     else:
         R.violate("d", "restore-incomplete", "restore does not clear the state and then insert every entry of the snapshot", rs)
